@@ -100,12 +100,15 @@ NAMESPACES = ['root', 'FB', 'FA', 't1', 't2', 't3']
 TASK_POINTS = ['1', '2', '3', '4']
 
 LEAVES = [
-    (['script'], ['s1', 's2', 'echo hi']),
-    (['pre-script'], ['p1', 'p2']),
+    # (values include falsy ones - the empty string that blanks a script or
+    # an environment variable, boolean False - which are valid settings)
+    (['script'], ['s1', 's2', 'echo hi', '']),
+    (['pre-script'], ['p1', 'p2', '']),
     (['post-script'], ['q1']),
     (['execution time limit'], ['PT1M', 'PT2M', 'PT1H']),
-    (['environment', 'A'], ['a1', 'a2', 'a3']),
-    (['environment', 'B'], ['b1', 'b2']),
+    (['environment', 'A'], ['a1', 'a2', 'a3', '']),
+    (['environment', 'B'], ['b1', 'b2', '']),
+    (['simulation', 'fail try 1 only'], ['False', 'True']),
     (['environment', 'C'], ['c1']),
     (['environment', 'R'], ['r1', 'r2']),
     (['directives', '-l a'], ['7', '8']),
